@@ -183,6 +183,14 @@ EarlyRec(k) ==
     /\ ~mgr /\ k \in Rec
     /\ early' = Append(early, k) /\ instAt' = [instAt EXCEPT ![k] = now] /\ UNCHANGED due
     /\ act' = [op |-> "rec", k |-> k, a |-> 0] /\ QuietEarly
+\* suspend_task before the manager exists: the task is forgotten again (one remembered installation is taken back)
+RemoveFirst(lst, k) == LET I == {i \in 1..Len(lst) : lst[i] = k} IN
+                       IF I = {} THEN lst
+                       ELSE LET m == CHOOSE i \in I : \A j \in I : i <= j IN SubSeq(lst, 1, m - 1) \o SubSeq(lst, m + 1, Len(lst))
+EarlySuspend(k) ==
+    /\ ~mgr /\ \E i \in 1..Len(early) : early[i] = k
+    /\ early' = RemoveFirst(early, k) /\ UNCHANGED <<due, instAt>>
+    /\ act' = [op |-> "suspend", k |-> k, a |-> 0] /\ QuietEarly
 RECURSIVE Boot(_, _, _)
 Boot(r, lst, i) ==
     IF i > Len(lst) THEN r
@@ -203,7 +211,7 @@ LateNext ==
     \/ \E f \in F : Defer(f)
     \/ \E d \in Steps : Run(d)
 Next ==
-    \/ ~mgr /\ (Start \/ \E k \in K : EarlyRec(k) \/ \E t \in Times : EarlyAt(k, t))
+    \/ ~mgr /\ (Start \/ \E k \in K : EarlyRec(k) \/ EarlySuspend(k) \/ \E t \in Times : EarlyAt(k, t))
     \/ mgr /\ LateNext
 
 Spec == Init /\ [][Next]_vars
